@@ -334,11 +334,11 @@ pub fn property() -> Property {
         health: vec![("ops.programs", "ran>=20ops", 300)],
         subs: vec![
             enum_sub("ops.alu_pred_exhaustive", exhaustive_items, oracle),
-            prop_sub("ops.stack_shapes", 40_000, 2_000_000, |_| prop_oneof![3 => shaped_case(STACK_OPS, false).boxed(), 2 => range_case().boxed()], oracle),
-            prop_sub("ops.memory_shapes", 25_000, 1_200_000, |_| prop_oneof![3 => shaped_case(MEM_OPS, true).boxed(), 1 => parent_memory_case().boxed()], oracle),
+            prop_sub("ops.stack_shapes", 200_000, 2_000_000, |_| prop_oneof![3 => shaped_case(STACK_OPS, false).boxed(), 2 => range_case().boxed()], oracle),
+            prop_sub("ops.memory_shapes", 125_000, 1_200_000, |_| prop_oneof![3 => shaped_case(MEM_OPS, true).boxed(), 1 => parent_memory_case().boxed()], oracle),
             prop_sub(
                 "ops.programs",
-                6_000,
+                30_000,
                 300_000,
                 |_| programs::structured(programs::StructCfg::default()).prop_map(program_case),
                 oracle,
